@@ -100,7 +100,8 @@ def h_convert(ctx, fmt="wfn", shells="sp", conv="own", twin=False, ecp=False):
     mods = rt._fmt_modules(fmt)
     heavy = fmt in ("molden", "molekel")
     convname = {"own": {"fchk": "fchk", "molden": "molden", "molekel": "molden", "wfn": "wfn", "wfx": "wfn"}[fmt]}.get(conv, conv)
-    mo_kind, occ = ctx.choice([("restricted", "closed"), ("restricted", "rohf"), ("unrestricted", "uhf")], label="orbitals")
+    mo_kind, occ = ctx.choice([("restricted", "closed"), ("restricted", "rohf"), ("unrestricted", "uhf"),
+                               ("restricted", "aminusb"), ("restricted", "aminusb-zero")], label="orbitals")
     allow = ctx.choice([False, True], label="allow_changes")
     atoms = [(8, 6.0), (1, None)] if ecp else ATOMS
     with stubbed(*mods):
@@ -120,7 +121,7 @@ def h_convert(ctx, fmt="wfn", shells="sp", conv="own", twin=False, ecp=False):
         cls = f"{fmt},{shells},{conv}" + (",ecp" if ecp else "")
         if err is not None:
             # failing with an error is an allowed outcome; segmented / supported objects must not be refused
-            refusable = shells in ("SP", "gen", "dpure", "fcart") or (fmt in ("molden", "molekel") and shells == "dcart" and False)
+            refusable = shells in ("SP", "gen", "dpure", "fcart") or (occ.startswith("aminusb") and (not allow or fmt == "fchk"))
             ctx.oblige("supported-object-is-written", refusable or isinstance(err, PrepareDumpError) and not allow and shells in ("SP", "gen"),
                        cls=cls, detail=f"{type(err).__name__}: {err} / {err.__cause__!r}")
             return
@@ -152,18 +153,21 @@ def h_convert(ctx, fmt="wfn", shells="sp", conv="own", twin=False, ecp=False):
         if twin:
             dst["a"] = [(o, e, {k: v * 2.0 for k, v in x.items()}) for (o, e, x) in dst["a"]]
         kind_same = back.mo.kind == data.mo.kind
-        if fmt == "wfn" and data.mo.kind == "unrestricted":
+        if fmt == "wfn" and (data.mo.kind == "unrestricted" or occ.startswith("aminusb")):
             # documented heuristic: a WFN file without the Multiwfn spin section cannot express which orbitals are
             # alpha and which beta when no occupation exceeds 1 - compare the orbital list without spin labels
-            def flat(sem, mo):
-                return {"a": sem["a"] + sem["b"] if mo.kind == "unrestricted" else sem["a"], "b": []}
-            for label, f, where in same_orbitals(ctx, flat(src, data.mo), flat(dst, back.mo)):
+            def flat(sem, mo, force=False):
+                return {"a": sem["a"] + sem["b"] if (mo.kind == "unrestricted" or force) else sem["a"], "b": []}
+            for label, f, where in same_orbitals(ctx, flat(src, data.mo, occ.startswith("aminusb")), flat(dst, back.mo)):
                 ctx.oblige(label.replace("-a", "-any-spin"), f, cls=f"{cls},{mo_kind}", detail=where)
             return
-        ctx.oblige("orbital-kind", kind_same, cls=cls, detail=f"{data.mo.kind} -> {back.mo.kind}")
-        if kind_same:
+        if not occ.startswith("aminusb"):
+            ctx.oblige("orbital-kind", kind_same, cls=cls, detail=f"{data.mo.kind} -> {back.mo.kind}")
+        if kind_same or occ.startswith("aminusb"):
+            # restricted orbitals with occs_aminusb come back unrestricted (announced conversion): the alpha and beta
+            # channels are compared as such
             for label, f, where in same_orbitals(ctx, src, dst):
-                ctx.oblige(label, f, cls=f"{cls},{mo_kind}", detail=where)
+                ctx.oblige(label, f, cls=f"{cls},{mo_kind}/{occ}", detail=where)
 
 
 def jobs(tier):
